@@ -508,6 +508,8 @@ func (x *SExec) apply(i int, op SOp) *Fail {
 		return x.doRace(i, op)
 	case "snaprace":
 		return x.doSnapRace(i, op)
+	case "iorace":
+		return x.doIORace(i, op)
 	case "ctldelsnap":
 		return x.doCtlDeleteSnapshot(i, op)
 	case "ctlrevert":
@@ -1047,7 +1049,9 @@ func (x *SExec) Verify() *Fail {
 	}
 	// phase 2: once replicas marked ERR have been removed by the monitor,
 	// the membership must be the one the model predicts
-	x.settleERR()
+	if f := x.settleERR(); f != nil {
+		return f
+	}
 	return x.verifyState(true)
 }
 
@@ -1192,21 +1196,29 @@ func (x *SExec) verifyState(withModel bool) *Fail {
 // settleERR waits for replicas the controller marked ERR to be removed by its
 // monitor goroutine (marking ERR stops the monitoring, which removes the
 // replica asynchronously but promptly); the model then treats them as absent.
-func (x *SExec) settleERR() {
+func (x *SExec) settleERR() *Fail {
 	for j, m := range x.Mode {
 		if m != types.ERR {
 			continue
 		}
 		t0 := time.Now()
-		for time.Since(t0) < 5*time.Second {
+		gone := false
+		// nominal: milliseconds (the monitor goroutine only needs the controller
+		// lock); with a ping stalled in front of it about a second
+		for time.Since(t0) < 20*time.Second {
 			if x.St.Mode(j) == "" {
 				x.Mode[j] = ""
 				x.Labels["err-replica-removed-by-monitor"]++
+				gone = true
 				break
 			}
 			time.Sleep(5 * time.Millisecond)
 		}
+		if !gone {
+			return sfail("membership|failed-replica-never-detached|after="+x.lastOp, fmt.Sprintf("n%d was marked failed but is still listed as %q 20 s later (it can neither serve nor be added again)", j, x.St.Mode(j)), "C05", "C18")
+		}
 	}
+	return nil
 }
 
 // subBlockHit reports whether the first differing byte lies in a block that
@@ -2101,6 +2113,145 @@ func (x *SExec) doSnapRace(i int, op SOp) *Fail {
 			return sfail("snapshot|refused-but-taken", fmt.Sprintf("volume snapshot %s was refused (%v) but exists on %v", name, serr, holders), "C13")
 		}
 		x.Labels["snaprace:refused"]++
+	}
+	return nil
+}
+
+// doIORace: a write, flush or unmap arrives while the controller is busy (lock
+// held) with a write that one RW replica stalls on and that ends with that
+// replica detached. The second request takes effect after the first: if the
+// volume has lost its quorum by then it is refused without reaching any replica,
+// otherwise it is served by the remaining replicas.
+// op.Node = the replica that stalls, op.Off/Len/Seed = the first write, op.Str = kind of the second request.
+func (x *SExec) doIORace(i int, op SOp) *Fail {
+	st := x.St
+	n := op.Node % len(st.Nodes)
+	if x.readOnly() || x.Mode[n] != types.RW {
+		return nil
+	}
+	for j, m := range x.Mode {
+		if m == types.ERR || (m == "" && st.Mode(j) != "") {
+			return nil
+		}
+	}
+	kind := op.Str
+	if kind == "" {
+		kind = "write"
+	}
+	total := x.Live.size() / Sec
+	off1, len1 := op.Off, op.Len
+	if off1+len1 > total {
+		len1 = total - off1
+	}
+	// the second request works on another block than the first
+	off2 := ((off1/8 + 2 + len1/8) * 8) % total
+	len2 := int64(8)
+	if off2+len2 > total {
+		off2 = 0
+	}
+	if off2 < off1+len1 && off1 < off2+len2 {
+		return nil
+	}
+	out := make([]Outcome, len(st.Nodes))
+	for j := range out {
+		out[j] = OK
+	}
+	out[n] = STALL
+	beforeW := st.Nodes[n].LogLen("write")
+	before := make([]int, len(st.Nodes))
+	for j, nd := range st.Nodes {
+		before[j] = len(nd.LogCopy())
+	}
+	wdone := make(chan *Fail, 1)
+	go func() { wdone <- x.doWrite(i, SOp{K: "write", Off: off1, Len: len1, Seed: op.Seed, Out: out}) }()
+	arrived := false
+	for t0 := time.Now(); time.Since(t0) < 3*time.Second; time.Sleep(2 * time.Millisecond) {
+		if st.Nodes[n].LogLen("write") > beforeW {
+			arrived = true
+			break
+		}
+	}
+	var (
+		n2    int
+		err2  error
+		data2 []byte
+	)
+	if arrived {
+		switch kind {
+		case "write":
+			data2 = payload(i*100+77, 1+op.Seed%200, off2*Sec, len2*Sec)
+			n2, err2 = st.C.WriteAt(data2, off2*Sec)
+		case "sync":
+			n2, err2 = st.C.Sync()
+		case "unmap":
+			n2, err2 = st.C.Unmap(off2*Sec, len2*Sec)
+		}
+	}
+	if wf := <-wdone; wf != nil {
+		return wf
+	}
+	if !arrived {
+		x.Labels["iorace:write-did-not-reach-replica"]++
+		return nil
+	}
+	ack := err2 == nil
+	if kind == "write" {
+		ack = err2 == nil && n2 == len(data2)
+	}
+	reached := map[int]bool{}
+	for j, nd := range st.Nodes {
+		lg := nd.LogCopy()
+		for _, e := range lg[before[j]:] {
+			if e.Kind != kind {
+				continue
+			}
+			if kind == "write" && e.Off != off2*Sec {
+				continue
+			}
+			reached[j] = true
+		}
+	}
+	ro := x.readOnly()
+	x.tracef("iorace: %s off=%d issued during a write stalled by n%d -> n=%d err=%v; volume read-only afterwards=%v, reached %v", kind, off2*Sec, n, n2, err2, ro, keys(reached))
+	x.Labels["iorace:"+kind]++
+	if ro {
+		x.Labels["iorace:quorum-lost-meanwhile"]++
+		if ack {
+			return sfail(kind+"|readonly|accepted-while-quorum-was-being-lost", fmt.Sprintf("%s issued while n%d was being detached was acknowledged although only %d of RF=%d replicas are RW afterwards", kind, n, x.nRW(), x.P.RF), "C03")
+		}
+		if len(reached) > 0 {
+			return sfail(kind+"|readonly|reached-replica", fmt.Sprintf("%s refused for lack of quorum but it reached %v", kind, keys(reached)), "C03")
+		}
+		return nil
+	}
+	W := x.writers()
+	if !ack && len(reached) > len(W)/2 {
+		return sfail(kind+"|majority-but-failed", fmt.Sprintf("%s issued while n%d was being detached reached %v of the attached %v but was reported failed: n=%d err=%v", kind, n, keys(reached), W, n2, err2), "C05", "C02")
+	}
+	if ack && len(reached) <= len(W)/2 {
+		return sfail(kind+"|ack-without-majority", fmt.Sprintf("%s acknowledged but it reached %v of the attached %v", kind, keys(reached), W), "C02")
+	}
+	switch kind {
+	case "write":
+		if ack {
+			x.Live.Write(off2*Sec, data2)
+			arw := 0
+			for j := range reached {
+				if x.Mode[j] == types.RW {
+					arw++
+				}
+			}
+			x.Acked = append(x.Acked, ackedWrite{Off: off2 * Sec, Len: len2 * Sec, Sum: sum64(data2), W: W, A: keys(reached), ARW: arw, Unordered: true})
+			x.Labels["write:acked"]++
+		} else if len(reached) > 0 {
+			for sct := off2; sct < off2+len2; sct++ {
+				x.Live.Indet[sct] = true
+			}
+		}
+	case "unmap":
+		if len(reached) > 0 {
+			x.Live.Unmap(off2*Sec, len2*Sec)
+		}
 	}
 	return nil
 }
